@@ -40,6 +40,8 @@ JMeshClosest(r, vp, j) ==
     \* the measured deviation: its reference point is a closest point and its magnitude the closest distance
     /\ D2Matches(oq.dev.dq2, MeshMinD2(q, vp, r.faces)) /\ D2Matches(oq.dev.a, MeshMinD2(q, vp, r.faces))
     /\ D2Matches(oq.dev.apl, MeshMinD2(q, vp, r.faces))          \* (plane mode: same reference point)
+    \* plane mode measures along the normal of a face the closest point lies on (not a blend of the faces meeting there)
+    /\ oq.dev.nplfin /\ \E k \in ArgMinFaces(q, vp, r.faces) : DirMatches(oq.dev.npl, FaceNormal(vp, r.faces, k))
 JMeshCapped(r, vp, j) ==
     LET q == r.qs[j] oq == r.out.q[j] fs == r.faces m == MeshMinD2(q, vp, fs) IN
     /\ Len(oq.capped) = Len(r.caps)
